@@ -22,6 +22,7 @@ JudgeOne(i) ==
       l1rt == [st |-> u.st, tree |-> SubTree(u.fs, MCOut)]
       race == IF "race" \in DOMAIN o THEN o.race ELSE FALSE
   IN PrintT("@@" \o ToJson([fam |-> "judge", idx |-> i,
+        same |-> (o.st = l1.st /\ (l1.st = "ok" => o.out = l1.out /\ RtOf(o) = l1rt)),       \* observation = L1 prediction
         v |-> Verdict(f, opts, o.rules, o.st, o.out, o.meta, RtOf(o), l1)
               @@ [c16 |-> ~race /\ o.st = canon.st /\ (canon.st = "ok" => o.out = canon.out),
                   w16 |-> (IF race THEN {"data-race"} ELSE {}) \cup (IF o.st # canon.st THEN {"status:" \o o.st \o "/" \o canon.st} ELSE {})
